@@ -404,6 +404,20 @@ def _execute_failed_create(ctx, case):
         ctx.fail('C19:reload-raised:%s' % type(e).__name__, 'reloading the schema files raised %r' % (e,), case)
         return
       if gi == 0:
+        # (while we are at it: the reload timer meets the file half-written, cut in the middle of a line; the reload
+        # functions report that and keep the lists they have - they never raise into the timer that calls them)
+        with open(sp, 'w') as f:
+          f.write(render_schemas(gen_['schemas']) + '\n[half]\npattern = ^x\nretent')
+        try:
+          w.reloadStorageSchemas()
+        except BaseException as e:  # noqa
+          ctx.fail('C19:reload-raised:%s' % type(e).__name__, 'reloading a half-written storage-schemas.conf raised %r into the '
+                   'reload timer (a LoopingCall stops for good after one exception)' % (e,), case)
+          return
+        with open(sp, 'w') as f:
+          f.write(render_schemas(gen_['schemas']))
+        w.reloadStorageSchemas()
+
         def failing_create(metric, *a, **kw):
           db._call('create', metric, ['refused'])
           raise IOError(28, 'No space left on device (injected)')
